@@ -160,7 +160,11 @@ func runJob(j *sup.Job) (res sup.Result) {
 
 func doParse(j *sup.Job, res *sup.Result) ([]*process.Process, []process.Name, *process.GlobalEnvironment) {
 	atomic.StoreInt64(&parser.VerifScanSteps, 0)
-	atomic.StoreInt64(&parser.VerifScanBudget, j.ScanBudget)
+	budget := j.ScanBudget
+	if budget == 0 {
+		budget = int64(len(j.Text))*8 + 4096
+	}
+	atomic.StoreInt64(&parser.VerifScanBudget, budget)
 	var m0, m1 runtime.MemStats
 	measure := j.Kind == "parse"
 	if measure {
